@@ -205,6 +205,9 @@ func runHonest(t *rapid.T, c runCfg, extra func(w *chainsim.World, m *chainsim.M
 		w.S.OnAdversaryBlock = fm.OnByzantineBlock
 		fm.StartProbes(3 * time.Second)
 	}
+	if c.opts.Transactions && (c.prop == "C15" || simkit.Bool(t, "withtransactions")) {
+		chainsim.NewTxSource(w, time.Duration(simkit.Int(t, "txevery", 800, 4000))*time.Millisecond)
+	}
 	if c.fuzz > 0 {
 		chainsim.NewFuzzPeer(w, m, c.fuzz)
 	}
@@ -242,7 +245,7 @@ func TestC04(t *testing.T) {
 		simkit.AddRun()
 		defer simkit.Watch(300*time.Second, "C04 run")()
 		simkit.Guard(func() {
-			runHonest(t, runCfg{prop: "C04", opts: chainsim.WorldOpts{Nodes: [2]int{2, 5}, Validators: [2]int{4, 8}, Byzantine: true, ValidatorChanges: true, NetFaults: true, RPCFaults: true, SmallCache: true, StandardThresholds: true},
+			runHonest(t, runCfg{prop: "C04", opts: chainsim.WorldOpts{Nodes: [2]int{2, 5}, Transactions: true, Validators: [2]int{4, 8}, Byzantine: true, ValidatorChanges: true, NetFaults: true, RPCFaults: true, SmallCache: true, StandardThresholds: true},
 				faults: chainsim.FaultPlan{Partitions: true, Crashes: true, Skew: true}, blocks: [2]int{15, 110}}, nil)
 		})
 	})
@@ -253,7 +256,7 @@ func TestC05(t *testing.T) {
 		simkit.AddRun()
 		defer simkit.Watch(300*time.Second, "C05 run")()
 		simkit.Guard(func() {
-			runHonest(t, runCfg{prop: "C05", opts: chainsim.WorldOpts{Nodes: [2]int{3, 5}, Validators: [2]int{4, 8}, ValidatorChanges: true, NetFaults: true, RPCFaults: true, SmallCache: true},
+			runHonest(t, runCfg{prop: "C05", opts: chainsim.WorldOpts{Nodes: [2]int{3, 5}, Transactions: true, Validators: [2]int{4, 8}, ValidatorChanges: true, NetFaults: true, RPCFaults: true, SmallCache: true},
 				faults: chainsim.FaultPlan{Partitions: true, Crashes: true, Skew: true}, blocks: [2]int{15, 90}}, nil)
 		})
 	})
@@ -264,7 +267,7 @@ func TestC01(t *testing.T) {
 		simkit.AddRun()
 		defer simkit.Watch(300*time.Second, "C01 run")()
 		simkit.Guard(func() {
-			runHonest(t, runCfg{prop: "C01", opts: chainsim.WorldOpts{Nodes: [2]int{2, 5}, Validators: [2]int{4, 9}, Byzantine: true, ValidatorChanges: true, NetFaults: true, RPCFaults: true, SmallCache: true, StandardThresholds: true},
+			runHonest(t, runCfg{prop: "C01", opts: chainsim.WorldOpts{Nodes: [2]int{2, 5}, Transactions: true, Validators: [2]int{4, 9}, Byzantine: true, ValidatorChanges: true, NetFaults: true, RPCFaults: true, SmallCache: true, StandardThresholds: true},
 				faults: chainsim.FaultPlan{Partitions: true, Crashes: true, Skew: true}, blocks: [2]int{15, 110}}, nil)
 		})
 	})
@@ -275,7 +278,7 @@ func TestC15(t *testing.T) {
 		simkit.AddRun()
 		defer simkit.Watch(300*time.Second, "C15 run")()
 		simkit.Guard(func() {
-			runHonest(t, runCfg{prop: "C15", opts: chainsim.WorldOpts{Nodes: [2]int{2, 5}, Validators: [2]int{4, 9}, Byzantine: true, ValidatorChanges: true, NetFaults: true, RPCFaults: true, SmallCache: true},
+			runHonest(t, runCfg{prop: "C15", opts: chainsim.WorldOpts{Nodes: [2]int{2, 5}, Validators: [2]int{4, 9}, Byzantine: true, ValidatorChanges: true, NetFaults: true, RPCFaults: true, SmallCache: true, Transactions: true},
 				faults: chainsim.FaultPlan{Partitions: true, Crashes: true, Skew: true}, blocks: [2]int{10, 90}}, nil)
 		})
 	})
